@@ -565,11 +565,7 @@ class BehavioralRTLIRToVVisitorL1( bir.BehavioralRTLIRNodeVisitor ):
         return f'{value}[{idx}]'
       # Bit selection
       elif isinstance( Type.get_dtype(), rdt.Vector ):
-        if value[0].isdigit():
-          # a literal or a size cast (a constant): a select is only legal
-          # after an identifier or a concatenation
-          value = f'{{ {value} }}'
-        return f'{value}[{idx}]'
+        return f'{s._select_operand( node, value )}[{idx}]'
       else:
         raise VerilogTranslationError( s.blk, node,
             "internal error: unrecognized index" )
@@ -582,13 +578,23 @@ class BehavioralRTLIRToVVisitorL1( bir.BehavioralRTLIRNodeVisitor ):
   # visit_Slice
   #-----------------------------------------------------------------------
 
+  def _select_operand( s, node, value ):
+    # a bit or part select is only legal after an identifier or a
+    # concatenation: wrap a literal, a cast ( 8'( a )[7:4] ) or any other
+    # computed value into a concatenation first
+    if value[0].isdigit() or \
+       isinstance( node.value, ( bir.BinOp, bir.UnaryOp, bir.IfExp, bir.Compare, bir.Reduce ) ) or \
+       ( isinstance( node.value, ( bir.ZeroExt, bir.SignExt, bir.Truncate, bir.SizeCast ) ) and value[0] != '{' ):
+      return f'{{ {value} }}'
+    return value
+
   def visit_Slice( s, node ):
     node.value._top_expr = True
     node.lower._top_expr = True
     node.upper._top_expr = True
 
     lower = s.visit( node.lower )
-    value = s.visit( node.value )
+    value = s._select_operand( node, s.visit( node.value ) )
 
     # Check for +: syntax
     if node.base and node.size:
